@@ -423,6 +423,15 @@ def replay_roundtrip(model, rec):
             for n, s in loaded.items():
                 if s.new_state != {} or s.queue != deque() or s.reboot is not False:
                     return True, f"{ext}: node {n} is loaded with transient state new_state={s.new_state!r} queue={list(s.queue)!r} reboot={s.reboot!r}"
+            # a loaded node acquires transient state, the network is saved and loaded once more in this process
+            loaded[7].new_state[1] = ChildSensor(1, 6, "x")
+            loaded[7].queue.append("7;1;1;0;0;1\n")
+            Persistence(loaded, mock_schedule, path).save_sensors()
+            again = {}
+            Persistence(again, mock_schedule, path).safe_load_sensors()
+            for n, s in again.items():
+                if s.new_state != {} or s.queue != deque():
+                    return True, f"{ext}: after load, wake-up traffic on node 7, save and a second load in the same process, node {n} is loaded with new_state={s.new_state!r} queue={list(s.queue)!r} (containers shared between loaded nodes)"
     return False, "both formats round-trip the network and reset the transient state"
 
 
@@ -827,3 +836,36 @@ def replay_save_faults(model, rec):
 
 
 HOOKS.insert(0, (re.compile(r"^Persistence\.save_sensors.*(still-dirty|raises)|^L\.next-save"), replay_save_faults))
+
+
+def replay_mqtt_subscriptions(model, rec):
+    """start with a subscribe callback that fails (client not connected yet), then start again with a working
+    one: everything the second start needs must be subscribed then; presenting a child again after a failed
+    subscription must subscribe its topics"""
+    from unittest import mock
+
+    from mysensors.gateway_mqtt import MQTTGateway
+    from mysensors.sensor import ChildSensor, Sensor
+
+    ok = []
+    state = {"up": False}
+
+    def sub(topic, callback, qos):
+        if not state["up"]:
+            raise RuntimeError("client not connected")
+        ok.append(topic)
+
+    gw = MQTTGateway(mock.MagicMock(), sub, in_prefix="in", persistence=True, persistence_file="x.json")
+    gw.sensors[1] = Sensor(1)
+    gw.sensors[1].children[1] = ChildSensor(1, 6, "t")
+    gw.init_topics()
+    state["up"] = True
+    gw.init_topics()
+    need = {"in/+/+/0/+/+", "in/+/+/3/+/+", "in/1/1/1/+/+", "in/1/1/2/+/+", "in/1/+/4/+/+"}
+    missing = sorted(need - set(ok))
+    if missing:
+        return True, f"first start while the subscribe callback raises, second start with a working callback: {missing} are never subscribed"
+    return False, "a second start subscribes everything the first one could not"
+
+
+HOOKS.insert(0, (re.compile(r"^(MQTTTransport|BaseMQTTGateway)\..*frame\.|handle_subscription|init_topics"), replay_mqtt_subscriptions))
